@@ -25,7 +25,7 @@ CHECKS = {
     design="4/C14", technique=TECH + "; Apalache lemma and TLAPS proof for the band arithmetic"),
  "C15": dict(
     text="The ideal fit-crop (exact rationals, Geometry!Fit*) is model-checked for all sizes <= 9 and 36 centerings (inside, aspect, full in one "
-         "dimension, margin split by the clamped centering) and its inside-ness is an Apalache lemma for all sizes 1..65535. The implementation's f64 results "
+         "dimension, margin split by the clamped centering) and its inside-ness is an Apalache lemma for all sizes 1..65535 and a TLAPS theorem (proofs/FitProof) for all naturals. The implementation's f64 results "
          "for a boundary lattice^4, near-equal-ratio and seeded quadruples (~20k quick) are logged as exact dyadic rationals and judged by TLC with exact "
          "arithmetic: non-negative origin, f64-rounded right/bottom edge <= source size (the library's own validation), branch choice, full dimension exact, "
          "aspect and centering within 2^-50 relative; real resizes with fit_into_destination must return Ok, "
@@ -151,7 +151,7 @@ m = {"version": 1,
                "source_commits": ["ef02d83", "927d2c0", "2fbaacf", "6d53a32"], "add_only": True},
      "engines": [{"name": "tlc", "path": "/usr/local/bin/tlc", "serves_properties": sorted(CHECKS), "kind_free_text": "TLA+ explicit-state model checker (model checks and trace validation)"},
                  {"name": "apalache", "path": "/usr/local/bin/apalache-mc", "serves_properties": sorted(CHECKS), "kind_free_text": "symbolic checker for arithmetic lemmas over full machine ranges"},
-                 {"name": "tlapm", "path": "/usr/local/bin/tlapm", "serves_properties": ["C03", "C11", "C14"], "kind_free_text": "TLA+ proof system: unbounded proofs of the band arithmetic and of nearest-index-inside-source"},
+                 {"name": "tlapm", "path": "/usr/local/bin/tlapm", "serves_properties": ["C03", "C11", "C14", "C15"], "kind_free_text": "TLA+ proof system: unbounded proofs of the band arithmetic and of nearest-index-inside-source"},
                  {"name": "firv", "path": "/verif/harness", "serves_properties": sorted(CHECKS), "kind_free_text": "Rust conformance harness: executes cases against the real library and records traces (no oracle)"}],
      "checks": [], "not_applicable": [],
      "notes": "One entry point: ./check <ID> --tier quick|thorough. Exit 0 held, 1 VIOLATION, 2 tool failure. Known findings: known_findings.json."}
